@@ -666,6 +666,35 @@ def fresh_digests(pid, base_seed, tier, indices, hashseed):
     return json.loads(line[len("DIGESTS "):])
 
 
+def plan_digest_in_fresh_interpreter(pid, plan, hashseed):
+    """result digest of one plan executed in a brand-new interpreter started with the given PYTHONHASHSEED"""
+    import tempfile
+    env = dict(os.environ)
+    env["PYTHONHASHSEED"] = str(hashseed)
+    fd, path = tempfile.mkstemp(prefix="plan-", suffix=".json", dir=os.environ.get("TMPDIR", "/tmp"))
+    try:
+        with os.fdopen(fd, "w") as f:
+            json.dump({"plan": plan}, f)
+        p = subprocess.run([sys.executable, os.path.join(VERIF_DIR, "check"), pid, "--plan-digest", path], env=env,
+                           capture_output=True, text=True, timeout=900)
+    finally:
+        try:
+            os.remove(path)
+        except OSError:
+            pass
+    if p.returncode != 0:
+        raise HarnessError("plan-digest run failed (%d): %s" % (p.returncode, p.stderr[-1500:]))
+    return [l for l in p.stdout.splitlines() if l.startswith("PLANDIGEST ")][-1].split()[1]
+
+
+def run_plan_digest(pid, path, out=sys.stdout):
+    with open(path) as f:
+        plan = json.load(f)["plan"]
+    get_world(pid).warm()
+    print("PLANDIGEST " + in_fresh_fork(_history_probe_inner, (pid, [], plan)), file=out)
+    return EXIT_OK
+
+
 def run_check(pid, tier, base_seed, out=sys.stdout):
     t0 = _wall()
     w = get_world(pid)
@@ -694,12 +723,25 @@ def run_check(pid, tier, base_seed, out=sys.stdout):
         fresh_n = sizes.get("det_fresh", 6)
         fidx = det_idx[:: max(1, len(det_idx) // fresh_n)][:fresh_n]
         fresh = fresh_digests(pid, base_seed, tier, fidx, hashseed=4242) if fidx else {}
-        mism += [int(i) for i, d in fresh.items() if d1[int(i)] != d[0]]
+        fresh_mism = [int(i) for i, d in fresh.items() if d1[int(i)] != d[0] and int(i) not in mism]
+        # a run that is stable in this interpreter but differs in one started with another PYTHONHASHSEED: does the result
+        # depend on the interpreter's hash seed (salted hash() of str/bytes, set iteration order)?
+        hashseed_dependent = []
+        for i in fresh_mism[:3]:
+            plan_i = plan_for(pid, base_seed, i, tier)
+            same0 = plan_digest_in_fresh_interpreter(pid, plan_i, os.environ.get("PYTHONHASHSEED", "0"))
+            other = plan_digest_in_fresh_interpreter(pid, plan_i, 4242)
+            other2 = plan_digest_in_fresh_interpreter(pid, plan_i, 777)
+            if same0 == d1[i] and other == fresh[str(i)][0] and other != same0:
+                hashseed_dependent.append({"index": i, "plan": plan_i, "digests": {"hashseed-main": same0, "hashseed-4242": other, "hashseed-777": other2}})
+            else:
+                mism.append(i)
         # schedule-level determinism: the same plan alone in a pristine fork vs alone in a fresh interpreter
         alone_full = dict((r["index"], r.get("sched_digest")) for r in again)
         sched_mism = [int(i) for i, d in fresh.items() if alone_full.get(int(i)) not in (None, "", d[1]) and d[1]]
         det_report = {"seeds_rerun_isolated_process": len(det_idx), "seeds_rerun_fresh_interpreter": len(fresh),
                       "mismatches": sorted(set(mism)), "history_dependent": [], "nondeterministic": [],
+                      "hashseed_dependent": [h_["index"] for h_ in hashseed_dependent],
                       "schedule_digest_mismatches_between_two_pristine_executions": sorted(set(sched_mism))}
 
         # ---- a mismatch is either hidden state carried between calls (reproducible: depends on the runs
@@ -771,6 +813,21 @@ def run_check(pid, tier, base_seed, out=sys.stdout):
             else:
                 violations_new.append((v.get("index", -1), v.get("plan"), v))
 
+        for h_ in hashseed_dependent:
+            v = {"kind": "hidden-state", "sig": "%s:result-depends-on-the-interpreter-hash-seed" % pid, "stage": "hashseed", "no_shrink": True, "step": -1,
+                 "detail": "run %d gives digest %s in interpreters started with PYTHONHASHSEED=%s but %s with 4242 (and %s with 777): the result "
+                           "depends on salted hash() values or set order, i.e. it is not reproducible across processes"
+                           % (h_["index"], h_["digests"]["hashseed-main"], os.environ.get("PYTHONHASHSEED", "0"), h_["digests"]["hashseed-4242"],
+                              h_["digests"]["hashseed-777"])}
+            if getattr(w, "HISTORY_DEPENDENCE_IS_VIOLATION", False):
+                e = match_known(known, v["sig"])
+                if e is not None:
+                    known_hits.setdefault(v["sig"], [e, 0, v])
+                    known_hits[v["sig"]][1] += 1
+                else:
+                    violations_new.append((h_["index"], {"plan": h_["plan"], "steps": None}, v))
+            else:
+                det_report["mismatches"].append(h_["index"])
         hist_is_violation = getattr(w, "HISTORY_DEPENDENCE_IS_VIOLATION", False)
         for h in history_violations:
             if not hist_is_violation:
@@ -888,6 +945,14 @@ def run_replay(pid, path, out=sys.stdout):
     w = get_world(pid)
     w.warm()
     rp["_path"] = path
+    if rp.get("stage") == "hashseed":
+        d = dict((h, plan_digest_in_fresh_interpreter(pid, rp["plan"]["plan"], h)) for h in (0, 4242, 777))
+        print("replay: digests per PYTHONHASHSEED: %s" % d, file=out)
+        if len(set(d.values())) > 1:
+            print("VIOLATION property=%s replay=%s" % (pid, path), file=out)
+            return EXIT_VIOLATION
+        print("replay: the result does not depend on the hash seed on this tree", file=out)
+        return EXIT_OK
     if rp.get("stage") == "prefixed":
         sigs = in_fresh_fork(_prefixed_sigs, (pid, rp["plan"]["prefix"], rp["plan"]["plan"]), watchdog=900)
         print("replay: after %d earlier run(s) the plan shows %s" % (len(rp["plan"]["prefix"]), sigs), file=out)
